@@ -53,14 +53,59 @@ class _Ctx:
     def __init__(self):
         self.models: dict[Any, Any] = {}
 
-    def model(self, name, shape):
-        from acryo.alignment import FSCAlignment, PCCAlignment, ZNCCAlignment
+    def model(self, name, shape, tilt=False):
+        from acryo.alignment import FSCAlignment, NCCAlignment, PCCAlignment, ZNCCAlignment
 
-        k = (name, shape)
+        k = (name, shape, tilt)
         if k not in self.models:
-            cls = dict(ZNCC=ZNCCAlignment, PCC=PCCAlignment, FSC=FSCAlignment)[name]
-            self.models[k] = cls(_blob(shape))
+            cls = dict(ZNCC=ZNCCAlignment, PCC=PCCAlignment, FSC=FSCAlignment, NCC=NCCAlignment)[name]
+            self.models[k] = cls(_blob(shape), tilt=(-60.0, 50.0)) if tilt else cls(_blob(shape))
         return self.models[k]
+
+    # ---- objects that are mutated IN PLACE between calls (the abstract argument `a` names the state they must be in)
+    def loader_at(self, a: int, shape):
+        """One SubtomogramLoader whose molecules are moved in place between pose set 0 and pose set 1."""
+        from scipy.spatial.transform import Rotation
+        from acryo import Molecules, SubtomogramLoader
+
+        if "loader" not in self.models:
+            tomo = np.random.default_rng(5).normal(size=(30, 32, 34)).astype(np.float32)
+            self.models["loader"] = SubtomogramLoader(tomo, Molecules(_POSES[a][0].copy(), Rotation.from_quat(_POSES[a][1])), order=1, scale=0.8)
+            self.models["pose"] = a
+        ldr = self.models["loader"]
+        if self.models["pose"] != a:
+            cur, new = _POSES[self.models["pose"]], _POSES[a]
+            ldr.molecules.translate(new[0] - cur[0], copy=False)
+            ldr.molecules.rotate_by(Rotation.from_quat(new[1]) * Rotation.from_quat(cur[1]).inv(), copy=False)
+            self.models["pose"] = a
+        return ldr
+
+    def batch_with(self, a: int):
+        """One BatchLoader that is grown in place: a = 1 means the second tomogram has been registered."""
+        from acryo import BatchLoader, Molecules
+
+        if "batch" not in self.models:
+            b = BatchLoader(order=1, scale=1.0)
+            b.add_tomogram(_TOMOS[0], Molecules(_BPOS[0]))
+            self.models["batch"] = b
+            self.models["grown"] = False
+        b = self.models["batch"]
+        if a == 1 and not self.models["grown"]:
+            b.add_tomogram(_TOMOS[1], Molecules(_BPOS[1]))
+            self.models["grown"] = True
+        if a == 0 and self.models["grown"]:
+            import polars as pl
+
+            return b.filter(pl.col("image-id") == 0)      # a derived object: the first tomogram only
+        return b
+
+
+_Q = np.array([[0.0, 0.0, 0.0, 1.0], [0.5, 0.5, 0.5, 0.5], [0.0, 0.70710678, 0.0, 0.70710678]])
+_Q1 = np.array([[0.70710678, 0.0, 0.0, 0.70710678], [0.0, 0.0, 1.0, 0.0], [0.5, -0.5, 0.5, 0.5]])
+_P0 = np.array([[9.6, 10.4, 11.2], [12.0, 12.8, 13.6], [8.8, 14.4, 9.6]])
+_POSES = {0: (_P0, _Q), 1: (_P0 + np.array([[0.8, 0.0, -0.8], [-1.6, 0.8, 0.0], [0.0, -0.8, 1.6]]), _Q1)}
+_TOMOS = [np.random.default_rng(21).normal(size=(20, 20, 20)).astype(np.float32), np.random.default_rng(22).normal(size=(20, 20, 20)).astype(np.float32) + 3.0]
+_BPOS = [np.array([[8.0, 9.0, 10.0], [11.0, 10.0, 9.0]]), np.array([[9.0, 9.0, 9.0], [10.0, 11.0, 8.0], [8.0, 12.0, 11.0]])]
 
 
 def _call(entry: str, x: dict, ctx: _Ctx):
@@ -104,6 +149,31 @@ def _call(entry: str, x: dict, ctx: _Ctx):
         m = ctx.model(entry.split("_")[0].upper(), shape)
         r = m.align(_blob(shape, (0.6, -0.4, 0.3)), ms)
         return np.concatenate([np.asarray(r.shift, dtype=np.float64), [float(r.score)]])
+    if entry.endswith("_tilt"):
+        # one model instance with a missing wedge, molecules of different orientation (b) and content (c)
+        name, what, _ = entry.split("_")
+        m = ctx.model(name.upper(), shape, tilt=True)
+        quat = _Q[1] if x["b"] else _Q[2]
+        sub = _blob(shape, ((0.6, -0.4, 0.3), (-0.5, 0.2, 0.7))[x["c"]])
+        if what == "score":
+            return np.array([float(m.score(sub, quat, np.zeros(3)))])
+        if what == "landscape":
+            return np.asarray(m.landscape(sub, (1.0, 1.0, 1.0), quat, np.zeros(3)))
+        r = m.align(sub, (1.5, 1.5, 1.5), quat, np.zeros(3))
+        return np.concatenate([np.asarray(r.shift, dtype=np.float64), [float(r.score)]])
+    if entry == "loader_load_inplace":
+        ldr = ctx.loader_at(x["a"], None)
+        box = ((5, 5, 5), (4, 5, 6))[x["b"]]
+        if x["c"]:
+            return np.stack([np.asarray(v) for v in ldr.load_iter(output_shape=box)])
+        return np.asarray(ldr.asnumpy(output_shape=box))
+    if entry == "batch_average_grow":
+        b = ctx.batch_with(x["a"])
+        box = ((5, 5, 5), (4, 5, 6))[x["b"]]
+        if x["c"]:
+            h = np.asarray(b.average_split(n_set=1, seed=3, squeeze=True, output_shape=box))
+            return h
+        return np.asarray(b.average(output_shape=box))
     raise ValueError(entry)
 
 
@@ -123,7 +193,9 @@ def replay(case) -> dict:
             k = "".join(str(x[f]) for f in "abc")
             got = np.asarray(_call(entry, x, ctx))
             want = fresh[k]
-            if got.shape != want.shape or not np.allclose(got, want, rtol=0, atol=1e-6, equal_nan=True):
+            # poses reached by in-place arithmetic differ from directly constructed ones by float32 rounding
+            atol = 2e-4 if entry in ("loader_load_inplace",) else 1e-6
+            if got.shape != want.shape or not np.allclose(got, want, rtol=0, atol=atol, equal_nan=True):
                 return dict(failures=[dict(desc, clause="HistoryIndependent", call=i, args=k,
                                            maxdiff=(float(np.nanmax(np.abs(got.astype(np.float64) - want))) if got.shape == want.shape else -1.0))])
     except engine.ApiRaised:
